@@ -36,6 +36,9 @@ class LazyBuilder(Builder):
         return it
 
 
+KEPT = []
+
+
 def run_step(q, sel, form, op):
     """returns the list of row strings delivered by this step"""
     index_of = lambda o: o.idx
@@ -64,7 +67,10 @@ def run_step(q, sel, form, op):
                     exhausted = True
                     break
         finally:
-            it.close()
+            if len(op) > 3 and op[3] == 'keep':
+                KEPT.append(it)          # abandoned but still REFERENCED: suspended, its finally clause has not run
+            else:
+                it.close()
         if not exhausted:
             IQ.EPOCH['incomplete'].add(IQ.EPOCH['n'])
     elif kind == 'raise':
@@ -115,6 +121,8 @@ def run_lazy1(case):
         if not user_data_intact(case, objs):
             obs.append('X user-data-modified')
         res[cfg] = ' '.join(obs)
+        del KEPT[:]
+        gc.collect()
     enable_caching()
     return res
 
@@ -157,6 +165,8 @@ def run_multi(case):
         if not user_data_intact(case, objs):
             obs.append('X user-data-modified')
         res[cfg] = obs
+        del KEPT[:]
+        gc.collect()
         if cfg == 'on':
             res['mixed_level_retrieval'] = IQ.TRACE['mixed']
             res['cache_retrievals'] = IQ.TRACE['retrievals']
